@@ -13,7 +13,22 @@ def main():
         mod = importlib.import_module('symrun.suites.' + pid)
         res = mod.run(tier)
     except Exception as e:
-        res = {'status': 'error', 'error': repr(e) + '\n' + traceback.format_exc()}
+        from symrun import harness
+        frames = traceback.extract_tb(e.__traceback__)
+        where = [f for f in frames if '/discopy/' in f.filename]
+        if where and harness.CURRENT:
+            # the real code raised on an input of its domain: a failed obligation, not a checker error
+            suite = harness.CURRENT[-1]
+            caller = [f for f in frames if '/symrun/suites/' in f.filename]
+            suite.obligations.append({
+                'name': 'no_exception[%s line %d]' % (pid, caller[-1].lineno if caller else 0), 'ground': False,
+                'zero': [], 'vars': [], 'functions': [],
+                'what': 'the real code raised %s: %s at %s:%d in %s; the remaining obligations of the suite were not '
+                        'generated' % (type(e).__name__, str(e)[:300], where[-1].filename, where[-1].lineno, where[-1].name)})
+            res = suite.result()
+            res['aborted'] = True
+        else:
+            res = {'status': 'error', 'error': repr(e) + '\n' + traceback.format_exc()}
     res['wall_s'] = round(time.time() - t0, 2)
     with open(out, 'w') as f:
         json.dump(res, f, indent=1, default=str)
